@@ -72,6 +72,18 @@ def make_matches(r, i, n):
     return out
 
 
+def pad_to_multiple(ds, enc, chunk):
+    """Pad the data set with a comment so that its encoding is k * chunk bytes long."""
+    if chunk < 2:
+        return False
+    for k in range(0, 2 * chunk + 2, 2):
+        ds.ImageComments = 'p' * k
+        if len(enc(ds)) % chunk == 0:
+            return True
+    del ds.ImageComments
+    return False
+
+
 def run_case(res, case, sigs, attempt=0):
     from pynetdicom2 import applicationentity, sopclass, exceptions
     import pynetdicom2
@@ -94,6 +106,15 @@ def run_case(res, case, sigs, attempt=0):
     query.QueryRetrieveLevel = 'PATIENT'
     u = uid.UID(ts)
     enc = lambda ds: dsutils.encode(ds, u.is_implicit_VR, u.is_little_endian)
+    # some matches (and sometimes the query) are sized to an exact multiple of the sender's
+    # fragment size: the boundary where "is this the last fragment" is decided
+    chunk = min(server_max, client_max) - 6
+    exact = 0
+    for ds, st in matches:
+        if r.random() < 0.3 and pad_to_multiple(ds, enc, chunk):
+            exact += 1
+    if r.random() < 0.2:
+        pad_to_multiple(query, enc, chunk)
     want = [(enc(ds), st) for ds, st in matches]
     res.evaluations += 1 if not attempt else 0
     res.distinct.add('%s|%d|%s|%s|%d|%d' % (variant, n, ''.join(str(s & 1) for _, s in matches), ts[-1],
